@@ -50,12 +50,17 @@ type c15Stanza struct {
 	// epoch + Elapsed, so "the stanza's lifetime" is what remains then.
 	Deprecated bool
 	Elapsed    time.Duration
+	// Step: every reading of the clock is this much later than the previous one (time
+	// passes while the RA is built); one RA still carries ONE lifetime on all its routes.
+	Step time.Duration
 }
 
 var c15Stanzas = []c15Stanza{
 	{Pref: ndp.Medium, Lifetime: 24 * time.Hour},
 	{Pref: ndp.High, Lifetime: 10 * time.Second},
 	{Pref: ndp.Low, Lifetime: time.Hour, Deprecated: true, Elapsed: 20 * time.Minute},
+	{Pref: ndp.Medium, Lifetime: time.Hour, Deprecated: true, Elapsed: 30 * time.Minute, Step: time.Second},
+	{Pref: ndp.High, Lifetime: time.Hour, Deprecated: true, Elapsed: time.Hour - time.Second, Step: time.Second},
 }
 
 func (st c15Stanza) want() time.Duration {
@@ -121,7 +126,11 @@ func c15Run(c c15Case) (opts []ndp.Option, err error, panicked any) {
 		Lifetime:   st.Lifetime,
 		Deprecated: st.Deprecated,
 		Epoch:      vfEpoch,
-		TimeNow:    func() time.Time { return vfEpoch.Add(st.Elapsed) },
+	}
+	nread := 0
+	p.TimeNow = func() time.Time {
+		nread++
+		return vfEpoch.Add(st.Elapsed + time.Duration(nread-1)*st.Step)
 	}
 	var in []system.Route
 	for i, r := range c.Routes {
@@ -235,7 +244,7 @@ func c15Nontrivial(c c15Case) bool {
 func TestVerifC15(t *testing.T) {
 	r := ev.Begin("C15", "enum")
 	defer r.End(t)
-	r.Rule = "route lists = all subsets (size<=K) of a 12-route pool (nested prefixes with equal and different base address, /128s, ::/0, IPv4, disjoint), each in all permutations, plus each list with one element duplicated, x 3 stanza variants (one deprecated, 20 min into its hour), + failing source; non-trivial = >=1 advertised route and (a dropped route or >=2 advertised); distinct = distinct ordered list x stanza"
+	r.Rule = "route lists = all subsets (size<=K) of a 12-route pool (nested prefixes with equal and different base address, /128s, ::/0, IPv4, disjoint), each in all permutations, plus each list with one element duplicated, x 5 stanza variants (one deprecated, 20 min into its hour; two deprecated under a clock that advances 1 s per reading, mid-life and 1 s before the deadline: all routes of one RA carry one lifetime), + failing source; non-trivial = >=1 advertised route and (a dropped route or >=2 advertised); distinct = distinct ordered list x stanza"
 	r.Assumptions = []string{"route source replaced by an injected function (Route.Routes); the rtnetlink loopback-route dump is not covered"}
 
 	if r.Replay != nil {
